@@ -134,28 +134,6 @@ NEEDS.update({
  "w3_c20_m1": ("filepost.py iter_field_objects: Mapping entries in sorted-key order", "fields given as a dict whose insertion order is not the sorted order"),
  "w3_c20_m2": ("_request_methods.py request_encode_body: `headers or self.headers`", "headers={} with the request on an object whose default headers are not empty"),
 })
-STRENGTHENED.update({
- "w3_c01_m1": "(C01 is single-threaded: the race is caught by C02, whose queue stand-in makes full()/put() separate scheduling points)",
- "w3_c02_m1": "C02 deadlock signature: a waiter that started to wait on the ATTACHED queue while no requester held a lease (known finding F-C02-a refined so that it cannot absorb this)",
- "w3_c02_m2": "(C02 unchanged: caught by C01's release_conn=False + preload configurations)",
- "w3_c03_m2": "C03 server behaviour 'interrupt while the body is received, rest late' and C01 invariant 'a pooled open connection has finished its last exchange'",
- "w3_c04_m1": "C04 backoff configuration with backoff_max=0",
- "w3_c05_m2": "(C05 unchanged: caught by C11's three-attempt histories with file bodies)",
- "w3_c06_m1": "C06 placement: explicit request-level None over a manager-level strip set",
- "w3_c06_m2": "C06 strip sets handed over as frozenset / tuple with mixed case",
- "w3_c07_m1": "(C07 unchanged: caught by C08's commonName-with-SAN classes)",
- "w3_c08_m2": "C08 DNS hosts containing '%'",
- "w3_c09_m1": "(C09 unchanged: caught by C18's dotted-host location pairs)",
- "w3_c10_m2": "C10 family body-framing: caller framing header with and without chunked=True, judged as 'exactly one request under the announced framing'",
- "w3_c11_m2": "C11 policy 'narrow': the method is outside Retry.allowed_methods; histories over failed dials and redirects",
- "w3_c12_m1": "C12 single programs 'pdata': one partial call, then .data twice",
- "w3_c12_m2": "C12 response specs with the transfer-coding name spelt Chunked / CHUNKED",
- "w3_c15_m1": "(C15 unchanged: the change is caught by C09's closed-tunnel histories)",
- "w3_c15_m2": "C15 path alphabet: an origin-form target that looks like a network-path reference (//n.test/b)",
- "w3_c17_m2": "(C17 unchanged: caught by C02's connection-accounting oracle at pool close)",
- "w3_c18_m1": "(C18 unchanged: caught by C09 - first message to an http proxy for an https target is not CONNECT)",
- "w3_c20_m2": "C20 headers kind 'empty': headers={} with the request while the object's defaults carry a Content-Type",
-})
 # missed by the check as it stood when the change arrived -> what was added to the check (then re-run: detected)
 STRENGTHENED = {
  "c01_m1": "C01 op alphabet: PUT with a body whose seek() fails (any second attempt ends in UnrewindableBodyError)",
@@ -195,6 +173,28 @@ STRENGTHENED.update({
  "w2_c19_m2": "C19: a request that fails before it dials is a violation (was a harness error)",
  "w2_c20_m1": "C20 routed cases with the caller's own HTTPHeaderDict used for two requests with different boundaries",
  "w2_c15_m1": "(C15 unchanged: the change is caught by C09's closed-tunnel histories)",
+})
+STRENGTHENED.update({
+ "w3_c01_m1": "(C01 is single-threaded: the race is caught by C02, whose queue stand-in makes full()/put() separate scheduling points)",
+ "w3_c02_m1": "C02 deadlock signature: a waiter that started to wait on the ATTACHED queue while no requester held a lease (known finding F-C02-a refined so that it cannot absorb this)",
+ "w3_c02_m2": "(C02 unchanged: caught by C01's release_conn=False + preload configurations)",
+ "w3_c03_m2": "C03 server behaviour 'interrupt while the body is received, rest late' and C01 invariant 'a pooled open connection has finished its last exchange'",
+ "w3_c04_m1": "C04 backoff configuration with backoff_max=0",
+ "w3_c05_m2": "(C05 unchanged: caught by C11's three-attempt histories with file bodies)",
+ "w3_c06_m1": "C06 placement: explicit request-level None over a manager-level strip set",
+ "w3_c06_m2": "C06 strip sets handed over as frozenset / tuple with mixed case",
+ "w3_c07_m1": "(C07 unchanged: caught by C08's commonName-with-SAN classes)",
+ "w3_c08_m2": "C08 DNS hosts containing '%'",
+ "w3_c09_m1": "(C09 unchanged: caught by C18's dotted-host location pairs)",
+ "w3_c10_m2": "C10 family body-framing: caller framing header with and without chunked=True, judged as 'exactly one request under the announced framing'",
+ "w3_c11_m2": "C11 policy 'narrow': the method is outside Retry.allowed_methods; histories over failed dials and redirects",
+ "w3_c12_m1": "C12 single programs 'pdata': one partial call, then .data twice",
+ "w3_c12_m2": "C12 response specs with the transfer-coding name spelt Chunked / CHUNKED",
+ "w3_c15_m1": "(C15 unchanged: the change is caught by C09's closed-tunnel histories)",
+ "w3_c15_m2": "C15 path alphabet: an origin-form target that looks like a network-path reference (//n.test/b)",
+ "w3_c17_m2": "(C17 unchanged: caught by C02's connection-accounting oracle at pool close)",
+ "w3_c18_m1": "(C18 unchanged: caught by C09 - first message to an http proxy for an https target is not CONNECT)",
+ "w3_c20_m2": "C20 headers kind 'empty': headers={} with the request while the object's defaults carry a Content-Type",
 })
 CAUGHT_BY_OTHER = {"w2_c07_m2": ["C18"], "w2_c15_m1": ["C09"], "w3_c01_m1": ["C02"], "w3_c02_m2": ["C01"], "w3_c05_m2": ["C11"],
                    "w3_c07_m1": ["C08"], "w3_c09_m1": ["C18"], "w3_c15_m1": ["C09"], "w3_c17_m2": ["C02"], "w3_c18_m1": ["C09"], "c09_m2": ["C07", "C09"], "c07_m2": ["C07", "C08"]}
